@@ -384,13 +384,14 @@ func TestPutCli(t *testing.T) {
 	if bin == "" {
 		t.Fatal("VERIF_SETEC_BIN not set")
 	}
-	reps := vh.EnvInt("VERIF_REPS", 2)
+	reps := vh.EnvInt("VERIF_REPS", 4)
 	w := vh.NewNDJSON(t, filepath.Join(dir, "trace.ndjson"))
 	s := &sys{dir: filepath.Join(dir, "srv")}
 	os.MkdirAll(s.dir, 0o700)
 	s.start(t)
 	defer s.stop()
 	r := vh.Rand(81)
+	large := false // set for a few runs per class: inputs of more than a megabyte
 	inputs := func(class string, k int) []byte {
 		rb := func(n int) []byte { b := make([]byte, n); r.Read(b); b[0], b[n-1] = 0xff, 0xfe; return b }
 		switch class {
@@ -399,10 +400,17 @@ func TestPutCli(t *testing.T) {
 		case "ws":
 			return [][]byte{[]byte("\n"), []byte(" \t\r\n "), []byte("  \n"), []byte("\v\f")}[k%4]
 		case "text":
+			if large {
+				// a long text (more than a megabyte): whatever buffers the command uses, every byte arrives
+				return bytes.Repeat([]byte("0123456789abcdef"), 70000+k)
+			}
 			return [][]byte{[]byte("hunter2"), []byte("two words\nand a line"), []byte("é世🔑"), []byte("x")}[k%4]
 		case "textws":
 			return [][]byte{[]byte("hunter2\n"), []byte("  padded  "), []byte("\tkey: value\r\n"), []byte(" é世 ")}[k%4]
 		case "bin":
+			if large {
+				return rb(1<<20 + 1 + r.Intn(2<<20)) // just over a megabyte up to three
+			}
 			return rb(8 + r.Intn(200))
 		default: // binws
 			b := rb(8 + r.Intn(200))
@@ -422,6 +430,7 @@ func TestPutCli(t *testing.T) {
 		for _, source := range []string{"file", "pipe"} {
 			for mask := 0; mask < 8; mask++ {
 				for k := 0; k < reps; k++ {
+					large = k == reps-1 && (mask == 0 || mask == 3) && (class == "text" || class == "bin")
 					in := inputs(class, k+mask)
 					if got := classOf(in); got != class {
 						t.Fatalf("generator: %q is %s, not %s", in, got, class)
